@@ -52,6 +52,10 @@ def compare(a, b):
     eq, a2, b2 = effects.equivalent(a, b)
     if eq:
         return {'status': 'equal', 'detail': []}
+    a2, b2 = effects.simplify_under_guards(a2), effects.simplify_under_guards(b2)
+    eq, a2, b2 = effects.equivalent(a2, b2)
+    if eq:
+        return {'status': 'equal', 'detail': []}
     # second attempt: canonicalise small pure sub-terms by truth table, then compare structurally again
     cache = {}
     f = lambda t: fold.canon_fold(t, cache)
@@ -120,7 +124,6 @@ def compare(a, b):
         w = semdiff.find_witness(a, b)
         if w is not None:
             return {'status': 'differ', 'detail': [{'kind': 'witness', **w}] + [d for d in detail if d['kind'] == 'value-differs']}
-        if status == 'differ':
-            return {'status': 'differ', 'detail': detail}
+        # a component-level difference found by folding ignores the path guards; only a whole-path witness is a proof
         return {'status': 'limit', 'detail': detail}
     return {'status': status, 'detail': detail}
